@@ -321,6 +321,21 @@ class AliasAnalysis:
             return r[1]
         return None
 
+    def _ctor_candidates(self, call: ast.Call, f: FunctionInfo) -> List[FunctionInfo]:
+        """constructors: the __init__ of the class that is instantiated (they return a fresh object but may modify their arguments)"""
+        fn = call.func
+        r = None
+        if isinstance(fn, ast.Name):
+            r = self._unwrap(self.repo.resolve_name(f.module, fn.id))
+        elif isinstance(fn, ast.Attribute):
+            d = self.repo.dotted_of(f.module, fn)
+            r = self._unwrap(self.repo.resolve_dotted(d)) if d is not None else None
+        if isinstance(r, ClassInfo):
+            for c in r.mro():
+                if "__init__" in c.methods:
+                    return [c.methods["__init__"]]
+        return []
+
     def _bind_args(self, call: ast.Call, g: FunctionInfo) -> Dict[str, ast.expr]:
         params = g.params()
         if params and params[0] in ("self", "cls") and g.cls is not None:
@@ -482,7 +497,7 @@ class AliasAnalysis:
                 self._judge(f, node, recv, desc, None)
             for n in _walk_fn(f.node):
                 if isinstance(n, ast.Call):
-                    for g in (self._candidates(n, f) or []):
+                    for g in (self._candidates(n, f) or []) + self._ctor_candidates(n, f):
                         mp = self.mut_params.get(g.where, set())
                         if not mp:
                             continue
@@ -502,11 +517,14 @@ class AliasAnalysis:
         if f.name.split(".")[-1] == "__init__" or (g.cls is not None and f.cls is not None and g.cls.name == f.cls.name):
             return
         rets = [r for r in _walk_fn(g.node) if isinstance(r, ast.Return) and r.value is not None]
-        if not rets or all(isinstance(r.value, ast.Name) and r.value.id == p for r in rets):
+        is_ctor = g.name.split(".")[-1] == "__init__"
+        if not is_ctor and (not rets or all(isinstance(r.value, ast.Name) and r.value.id == p for r in rets)):
             return              # a procedure whose purpose is to modify its argument (or that hands it back)
         for o in sorted(self.origins(arg, f)):
             if o[0] == "state" and isinstance(arg, ast.Attribute) and isinstance(arg.value, ast.Name) and arg.value.id == "self":
-                self.findings.append(("query", f, node, src(node)[:120], f"{g.where} returns a value but also modifies its parameter `{p}` in place; "
+                self.findings.append(("query", f, node, src(node)[:120],
+                                      (f"the constructor {g.where} modifies its parameter `{p}` in place; " if is_ctor else
+                                       f"{g.where} returns a value but also modifies its parameter `{p}` in place; ") +
                                       f"here it receives self.{o[2]} of the {o[1]} object"))
                 return
 
